@@ -1,5 +1,6 @@
 import AslModel.FileText
 import AslProofs.Bits
+import AslProofs.FileTextUtf
 /-!
 # C17 — helper lemmas for the File/TextFile model (core Lean only)
 
@@ -405,5 +406,94 @@ theorem openH_rw (d : Disk) (p : Nat) (t : Bool) (c : Bytes) (hp : d p = some c)
 theorem openH_rw_missing (d : Disk) (p : Nat) (t : Bool) (hp : d p = none) : openH d p t .rw = (none, d) := by
   simp only [openH, fopen, (open_modes t).2.2.2, hp, smUpdate, Bool.false_eq_true, if_false]
 
+
+/-! ## UTF-16 → UTF-8 through `String(const wchar_t*)`
+
+The specifications are those of `AslProps/C08.lean` (`C08.Std`): a scalar value is Lean's `Char`, UTF-8 is Lean
+core's encoder, UTF-16 is Unicode D91.  The statement `fromWide_std` is C08's `utf16_utf8_std`, re-proved here
+from the same helper lemmas (copied into `AslProofs/FileTextUtf.lean`) so that this property does not depend on C08's table obligations. -/
+namespace Std
+/-- UTF-8 of a sequence of scalar values (Lean core's encoder) -/
+def utf8 (cs : List Char) : List UInt8 := cs.flatMap String.utf8EncodeChar
+/-- UTF-16 of one scalar value (Unicode standard §3.9 D91) -/
+def utf16Char (v : Nat) : List Nat :=
+  if v < 0x10000 then [v] else [(v - 0x10000) / 0x400 + 0xD800, (v - 0x10000) % 0x400 + 0xDC00]
+def utf16 (cs : List Char) : List Nat := cs.flatMap fun c => utf16Char c.toNat
+/-- NUL terminates every C string of the library: text is a sequence of non-NUL scalar values -/
+def NoNul (cs : List Char) : Prop := ∀ c ∈ cs, c.toNat ≠ 0
+end Std
+
+open AslModel.Utf AslProofs.FileTextUtf in
+theorem utf16toUtf8_std (cs : List Char) (h : Std.NoNul cs) (junk : List Int) (n : Int)
+    (hn : n ≤ 0 ∨ (cs.length : Int) < n) :
+    utf16toUtf8 ((Std.utf16 cs).map Int.ofNat ++ 0 :: junk) n = some (Std.utf8 cs) := by
+  induction cs generalizing n with
+  | nil => rw [utf16toUtf8.eq_def]; simp [Std.utf16, Std.utf8]
+  | cons ch t ih =>
+    have h0 : ch.toNat ≠ 0 := h ch (by simp)
+    have ht : Std.NoNul t := fun c hc => h c (by simp [hc])
+    simp only [Std.utf16, Std.utf8, List.flatMap_cons, List.map_append, List.append_assoc] at *
+    have hne : ¬ (n - 1 = 0) := by simp only [List.length_cons] at hn; omega
+    have hrec := ih ht (n - 1) (by simp only [List.length_cons] at hn; omega)
+    by_cases hb : ch.toNat < 65536
+    · have hu : Std.utf16Char ch.toNat = [ch.toNat] := by simp [Std.utf16Char, hb]
+      rw [hu]
+      simp only [List.map_cons, List.map_nil, List.cons_append, List.nil_append]
+      rw [show Int.ofNat ch.toNat = (ch.toNat : Int) from rfl, e16_bmp ch h0 hb, hrec]
+      simp [contB, hne]
+    · have hu : Std.utf16Char ch.toNat = [(ch.toNat - 0x10000) / 0x400 + 0xD800, (ch.toNat - 0x10000) % 0x400 + 0xDC00] := by
+        simp [Std.utf16Char, hb]
+      rw [hu]
+      simp only [List.map_cons, List.map_nil, List.cons_append, List.nil_append]
+      have := e16_pair ch (by omega) (List.map Int.ofNat (List.flatMap (fun c => Std.utf16Char c.toNat) t) ++ 0 :: junk) n
+      simp only [Int.ofNat_eq_natCast] at *
+      rw [this, hrec]
+      simp [contB, hne]
+
+theorem utf16_ne_zero (cs : List Char) (h : Std.NoNul cs) : ∀ u ∈ Std.utf16 cs, u ≠ 0 := by
+  intro u hu
+  simp only [Std.utf16, List.mem_flatMap] at hu
+  obtain ⟨c, hc, hu⟩ := hu
+  have h0 := h c hc
+  unfold Std.utf16Char at hu
+  split at hu <;> simp at hu <;> omega
+
+theorem utf16_length_ge (cs : List Char) : cs.length ≤ (Std.utf16 cs).length := by
+  induction cs with
+  | nil => simp [Std.utf16]
+  | cons ch t ih =>
+    simp only [Std.utf16, List.flatMap_cons, List.length_append, List.length_cons] at *
+    have : 1 ≤ (Std.utf16Char ch.toNat).length := by unfold Std.utf16Char; split <;> simp
+    omega
+
+theorem takeWhile_int_units (l : List Nat) (h : ∀ u ∈ l, u ≠ 0) :
+    (l.map Int.ofNat ++ [0]).takeWhile (· != 0) = l.map Int.ofNat := by
+  induction l with
+  | nil => simp
+  | cons a t ih =>
+    have ha : ¬ (Int.ofNat a = 0) := by have := h a (by simp); simp only [Int.ofNat_eq_natCast]; omega
+    simp only [List.map_cons, List.cons_append, List.takeWhile_cons, bne_iff_ne, ne_eq, ha,
+      not_false_eq_true, if_true]
+    rw [ih (fun u hu => h u (by simp [hu]))]
+
+/-- `String(const wchar_t*)` on standard UTF-16 is the standard UTF-8 -/
+theorem fromWide_std (cs : List Char) (h : Std.NoNul cs) :
+    AslModel.Utf.fromWide ((Std.utf16 cs).map Int.ofNat ++ [0]) = some (Std.utf8 cs) := by
+  unfold AslModel.Utf.fromWide
+  rw [takeWhile_int_units _ (utf16_ne_zero cs h)]
+  apply utf16toUtf8_std cs h []
+  right
+  have := utf16_length_ge cs
+  simp only [List.length_map, AslModel.Utf.capAfterInit]
+  split <;> omega
+
+/-- `String(const wchar_t*)` never reads outside a zero-terminated array, whatever the units -/
+theorem wideToString_some (a : List Nat) : ∃ t, wideToString a = some t := by
+  have := AslProofs.FileTextUtf.e16_some (a.map Int.ofNat ++ [0])
+    (AslModel.Utf.capAfterInit (4 * ((a.map Int.ofNat ++ [0]).takeWhile (· != 0)).length)) (by simp [AslProofs.FileTextUtf.hasZero])
+  unfold wideToString AslModel.Utf.fromWide
+  cases hr : AslModel.Utf.utf16toUtf8 _ _ with
+  | none => simp [hr] at this
+  | some o => exact ⟨o, rfl⟩
 
 end AslProofs.FileText
